@@ -32,7 +32,9 @@ def run(ctx):
              ("file-disjoint", 100 if quick else 2000, 4, 6), ("file-disjoint", 30 if quick else 600, 6, 40),
              ("file-handoff", 60 if quick else 1000, 4, 6),
              # one writer, several readers on shared addresses; reads overlapping a write of their address are left out by the recorder
-             ("file-shared", 400 if quick else 8000, 4, 8)]
+             ("file-shared", 400 if quick else 8000, 4, 8),
+             # two writers of one address (each its own value) and readers, then writes and reads at rest
+             ("file-writers", 12000 if quick else 120000, 3, 6)]
     tot = {"histories": 0, "ops": 0, "overlapping_invocations": 0, "histories_with_overlap": 0, "torn_blocks": 0,
            "inconclusive": 0, "lin_search_skipped": 0}
     bad = []
@@ -51,14 +53,14 @@ def run(ctx):
         "evaluations": tot["histories"],
         "distinct_nontrivial": tot["histories_with_overlap"],
         "rule": "a case is one recorded concurrent history (2..6 goroutines, up to 30 calls each, on the real MemDisk with shared addresses, or the real FileDisk "
-                "with per-goroutine addresses / client-side hand-off / one writer and racing readers on shared addresses, where only reads that do not overlap a write of their address are judged), judged by the extracted checker proved sound and complete; non-trivial = at least two "
+                "with per-goroutine addresses / client-side hand-off / one writer (file-shared) or two writers of one address followed by writes and reads at rest (file-writers) and racing readers, where only reads that do not overlap a write of their address are judged), judged by the extracted checker proved sound and complete; non-trivial = at least two "
                 "calls of the history overlapped in real time (measured from the recorded timestamps); the -race runs are counted separately",
         "samples": [sample],
         "operations": tot["ops"], "overlapping_invocations": tot["overlapping_invocations"], "torn_blocks_seen": tot["torn_blocks"],
         "lin_search_timed_out": tot["inconclusive"], "histories_too_long_for_lin_search_(torn-block oracle only)": tot["lin_search_skipped"],
         "race_detector_runs": 2, "race_reports": len(races), "not_linearizable": len(bad),
     })
-    ctx.assumptions += ["FileDisk: atomicity of one 4096-byte pread64/pwrite64 is the kernel's; a read is judged only when it overlaps no write of its address (file-shared leaves the others out of the history)",
+    ctx.assumptions += ["FileDisk: atomicity of one 4096-byte pread64/pwrite64 is the kernel's; a read is judged only when it overlaps no write of its address; whole-block pwrites of one file are serialised by the kernel's inode lock (file-shared / file-writers leave the others out of the history)",
                         "Go memory model / race detector are trusted for 'no data races'"]
     def report_hist(cmd, m):
         idx = int(m.split("hist=")[1].split()[0])
